@@ -227,6 +227,9 @@ def run_item(item):
         reform("identical", "deepcopy(params)", copy.deepcopy(params), functions, set())
         reform("identical", "copy of all functions",
                params, {k: (identical_copy(f) if inspect.isfunction(f) else f) for k, f in functions.items()}, set())
+        reform("identical", "functions as a list with one dict", params, [functions], set())
+        reform("identical", "functions as a list of two dicts (second half of the rules in the second)", params,
+               [dict(list(functions.items())[: len(functions) // 2]), dict(list(functions.items())[len(functions) // 2:])], set())
     # (a2) a caller replaces functions in place in the dict it was handed, then sets up the date again
     if item["chunk"] == 0:
         from _gettsim.policy_environment import set_up_policy_environment as _setup
